@@ -615,17 +615,19 @@ fn crash_and_recover(root: &Path, names: &[String], scratch: &Scratch, lv: &Live
         if b != expect {
             o.violations.push(("bare_recover_half_applied".into(), format!("cut {cut}: the coordinator recovered from the unrepaired directory differs from the run cut at its last commit ({c} transactions): {:?} vs {:?}", postures(b, names), postures(expect, names))));
         }
-    } else if o.bare != "WalTailNotClean" {
+    } else if !matches!(&bare, Ok(Ok(Err(_)))) {
+        // a panic, or the store could not even be opened
         o.violations.push(("bare_recover_failed".into(), format!("cut {cut}: {}", o.bare)));
     }
-    o.refused = o.bare == "WalTailNotClean";
+    // any Err of the coordinator's recovery is a refusal (WalTailNotClean, or the store error of a snapshot that refuses a torn record)
+    o.refused = matches!(&bare, Ok(Ok(Err(_))));
     // a COMPLETE frame without its complete commit marker is an uncommitted tail the coordinator must refuse (ADR 0026)
     let whole_frame_tail = lv.bounds.iter().any(|b| b.2 > b.0 && b.1 <= cut && cut < b.2);
     if whole_frame_tail && !o.refused {
         o.violations.push(("uncommitted_frame_not_refused".into(), format!("cut {cut}: a complete frame without commit marker is on disk and ExternalActionCoordinatorV1::recover answered {}", o.bare)));
     }
     if o.tail == "clean" && o.refused {
-        o.violations.push(("clean_tail_refused".into(), format!("cut {cut}")));
+        o.violations.push(("clean_tail_refused".into(), format!("cut {cut}: the log ends at a transaction boundary and ExternalActionCoordinatorV1::recover answered {}", o.bare)));
     }
     if let Some(b) = pred.bare {
         if b != o.bare {
@@ -1078,10 +1080,10 @@ fn sweep_case(cx: &mut Ctx, case: &Value) -> Value {
                 }
             }
         }
-        // stride > 1 still visits every record boundary and its neighbours
+        // stride > 1 still visits every record boundary, its neighbours and a cut inside the record header (magic complete, length torn)
         let mut next = b + stride;
         if stride > 1 {
-            if let Some(nb) = boundaries.iter().flat_map(|x| [x.saturating_sub(1), *x, *x + 1]).filter(|x| *x > b && *x < next).min() {
+            if let Some(nb) = boundaries.iter().flat_map(|x| [x.saturating_sub(1), *x, *x + 1, *x + 9]).filter(|x| *x > b && *x < next).min() {
                 next = nb;
             }
         }
